@@ -1,12 +1,261 @@
 package main
 
+// Live path of C04: the address goes through a real SMTP session (RCPT + DATA on the real
+// smtp.Server over net.Pipe, real StoreManager, memory store); afterwards the same address
+// is used to ask for the mailbox through Manager.MailboxForAddress, through the REST API
+// (the real router) and through a real POP3 session (USER <address>).
+//
+//	live <mode> <a> => <iptab> <rcpt code> <data code> <mailboxes holding a message> <lookup by address via manager>
+//	                   <lookup by stored name via manager> <REST by address: status:count:mailbox> <POP3 USER address: count>
+//	                   <POP3 USER stored name: count>
+
 import (
+	"bufio"
+	"encoding/json"
+	"fmt"
+	"io"
+	"net"
+	"net/http"
+	"net/http/httptest"
+	"net/url"
+	"sort"
+	"strings"
+	"time"
+
+	"github.com/gorilla/mux"
+	"github.com/rs/zerolog"
+	"github.com/inbucket/inbucket/v3/pkg/config"
+	"github.com/inbucket/inbucket/v3/pkg/extension"
+	"github.com/inbucket/inbucket/v3/pkg/message"
+	"github.com/inbucket/inbucket/v3/pkg/msghub"
+	"github.com/inbucket/inbucket/v3/pkg/policy"
+	"github.com/inbucket/inbucket/v3/pkg/rest"
+	"github.com/inbucket/inbucket/v3/pkg/server/pop3"
+	"github.com/inbucket/inbucket/v3/pkg/server/smtp"
+	"github.com/inbucket/inbucket/v3/pkg/server/web"
+	"github.com/inbucket/inbucket/v3/pkg/storage"
+	"github.com/inbucket/inbucket/v3/pkg/storage/mem"
+	"github.com/inbucket/inbucket/v3/pkg/webui"
 	"verifharness/vh"
 )
 
-// pop3Name: the mailbox name the POP3 server uses for `USER a` (function level: s.user = args[0]).
-func pop3Name(m int, a string) string { return "S" + vh.HS(a) }
+func init() { zerolog.SetGlobalLevel(zerolog.Disabled) }
 
-func genLive(g *vh.Gen) {}
+type lineConn struct {
+	c net.Conn
+	r *bufio.Reader
+}
 
-func execLive(in []string) []string { return []string{"UNIMPLEMENTED"} }
+func dial(serve func(net.Conn)) *lineConn {
+	sc, cc := net.Pipe()
+	go serve(sc)
+	return &lineConn{c: cc, r: bufio.NewReader(cc)}
+}
+
+// cmd sends one line (if any) and returns the first token of the reply line.
+func (l *lineConn) cmd(line string) string {
+	l.c.SetDeadline(time.Now().Add(10 * time.Second))
+	if line != "" {
+		if _, err := io.WriteString(l.c, line+"\r\n"); err != nil {
+			return "WERR"
+		}
+	}
+	reply, err := l.r.ReadString('\n')
+	if err != nil {
+		return "RERR"
+	}
+	return strings.TrimRight(reply, "\r\n")
+}
+
+func code(reply string) string {
+	if i := strings.IndexByte(reply, ' '); i > 0 {
+		return reply[:i]
+	}
+	return reply
+}
+
+// pop3Count: number of messages a real POP3 session sees after USER <user> / PASS.
+func pop3Count(st storage.Store, user string) string {
+	srv, err := pop3.NewServer(config.POP3{Domain: "inbucket.local", Timeout: 30 * time.Second}, st)
+	if err != nil {
+		return "POP3ERR"
+	}
+	l := dial(func(c net.Conn) { srv.VerifServe(1, c) })
+	defer l.c.Close()
+	if g := l.cmd(""); !strings.HasPrefix(g, "+OK") {
+		return "GREET:" + code(g)
+	}
+	if r := l.cmd("USER " + user); !strings.HasPrefix(r, "+OK") {
+		return "USER:" + code(r)
+	}
+	if r := l.cmd("PASS x"); !strings.HasPrefix(r, "+OK") {
+		return "PASS:" + code(r)
+	}
+	r := l.cmd("STAT")
+	l.cmd("QUIT")
+	f := strings.Fields(r)
+	if len(f) >= 2 && f[0] == "+OK" {
+		return "P" + f[1]
+	}
+	return "STAT:" + code(r)
+}
+
+// pop3Name: the mailbox name the real POP3 server ends up using for `USER a`. One message is
+// sent to <a> through a real SMTP session; if a POP3 session opened with USER a then sees that
+// message, POP3 used the canonical name, otherwise it used a mailbox of its own (named by the
+// raw argument: the handler does s.user = args[0]).
+func pop3Name(m int, a string) string {
+	if !liveOK(a) || strings.ContainsAny(a, " \t") {
+		return "S" + vh.HS(a)
+	}
+	env := deliverLive(m, a)
+	if env.rc != "250" || env.dc != "250" || len(env.boxes) != 1 {
+		return "S" + vh.HS(a)
+	}
+	if pop3Count(env.st, a) == "P1" {
+		return "S" + vh.HS(env.boxes[0])
+	}
+	return "S" + vh.HS(a)
+}
+
+type liveEnv struct {
+	conf   *config.Root
+	st     storage.Store
+	mgr    *message.StoreManager
+	rc, dc string
+	boxes  []string
+}
+
+// deliverLive sends one message to <a> through a real SMTP session in naming mode m.
+func deliverLive(m int, a string) *liveEnv {
+	conf := rootConfig(m)
+	conf.SMTP = config.SMTP{Domain: "inbucket.local", MaxRecipients: 10, MaxMessageBytes: 100000,
+		DefaultAccept: true, DefaultStore: true, Timeout: 30 * time.Second}
+	conf.Web = config.Web{UIDir: "/nonexistent-ui"}
+	extHost := extension.NewHost()
+	e := &liveEnv{conf: conf}
+	st, err := mem.New(config.Storage{Params: map[string]string{}}, extHost)
+	if err != nil {
+		e.rc = "STOREERR"
+		return e
+	}
+	ap := &policy.Addressing{Config: conf}
+	e.st = st
+	e.mgr = &message.StoreManager{AddrPolicy: ap, Store: st, ExtHost: extHost}
+	srv := smtp.NewServer(conf.SMTP, e.mgr, ap, extHost)
+	l := dial(func(c net.Conn) { srv.VerifServe(c) })
+	defer l.c.Close()
+	if g := l.cmd(""); code(g) != "220" {
+		e.rc = "GREET:" + code(g)
+		return e
+	}
+	l.cmd("HELO client.example")
+	l.cmd("MAIL FROM:<sender@example.org>")
+	e.rc = code(l.cmd("RCPT TO:<" + a + ">"))
+	if e.rc != "250" {
+		l.cmd("QUIT")
+		return e
+	}
+	e.dc = code(l.cmd("DATA"))
+	if e.dc == "354" {
+		io.WriteString(l.c, "Subject: live\r\nFrom: sender@example.org\r\n\r\nbody\r\n")
+		e.dc = code(l.cmd("."))
+	}
+	l.cmd("QUIT")
+	srv.Drain()
+	st.VisitMailboxes(func(ms []storage.Message) bool {
+		if len(ms) > 0 {
+			e.boxes = append(e.boxes, ms[0].Mailbox())
+		}
+		return true
+	})
+	sort.Strings(e.boxes)
+	return e
+}
+
+func liveOK(a string) bool {
+	if a == "" || strings.ContainsAny(a, "\r\n\x00") {
+		return false
+	}
+	return !strings.ContainsAny(a[:1], "<> ") && !strings.ContainsAny(a[len(a)-1:], "<> ")
+}
+
+func genLive(g *vh.Gen) {
+	n := 0
+	for n < g.N(300, 6000) {
+		a := genAddress(g)
+		if !liveOK(a) || len(a) > 400 {
+			continue
+		}
+		g.Emit("live", vh.I(g.Intn(3)), vh.HS(a))
+		n++
+	}
+}
+
+func execLive(in []string) []string {
+	m := vh.AtoI(in[0])
+	a := vh.US(in[1])
+	env := deliverLive(m, a)
+	if env.rc != "250" {
+		return []string{ipTable(a), env.rc}
+	}
+	conf, st, mgr, boxes, rc, dc := env.conf, env.st, env.mgr, env.boxes, env.rc, env.dc
+	strs := append([]string{a}, boxes...)
+	stored := "NONE"
+	if len(boxes) == 1 {
+		stored = "S" + vh.HS(boxes[0])
+	} else if len(boxes) > 1 {
+		stored = fmt.Sprintf("MANY%d", len(boxes))
+	}
+	count := func(name string, err error) string {
+		if err != nil {
+			return "MNONE"
+		}
+		md, err := mgr.GetMetadata(name)
+		if err != nil {
+			return "MERR"
+		}
+		return fmt.Sprintf("M%d", len(md))
+	}
+	byAddr := count(mgr.MailboxForAddress(a))
+	byName := "-"
+	if len(boxes) == 1 {
+		byName = count(mgr.MailboxForAddress(boxes[0]))
+	}
+	// REST: the real router. Names containing '/' (or "." / "..") do not survive the URL path:
+	// that is the open finding of C14, not this property.
+	restObs := "-"
+	if !strings.Contains(a, "/") && a != "." && a != ".." {
+		web.Router = mux.NewRouter()
+		webui.SetupRoutes(web.Router.PathPrefix("/serve/").Subrouter())
+		rest.SetupRoutes(web.Router.PathPrefix("/api/").Subrouter())
+		web.NewServer(conf, mgr, &msghub.Hub{})
+		req := httptest.NewRequest("GET", "http://inbucket.local/api/v1/mailbox/"+url.PathEscape(a), nil)
+		rec := httptest.NewRecorder()
+		web.Router.ServeHTTP(rec, req)
+		restObs = fmt.Sprintf("%d", rec.Code)
+		if rec.Code == http.StatusOK {
+			var items []struct {
+				Mailbox string `json:"mailbox"`
+			}
+			if err := json.Unmarshal(rec.Body.Bytes(), &items); err != nil {
+				restObs += ":BADJSON"
+			} else {
+				mb := "-"
+				if len(items) > 0 {
+					mb = vh.HS(items[0].Mailbox)
+				}
+				restObs += fmt.Sprintf(":%d:%s", len(items), mb)
+			}
+		}
+	}
+	// POP3: USER takes one space-free token
+	popAddr, popName := "-", "-"
+	if !strings.ContainsAny(a, " \t") {
+		popAddr = pop3Count(st, a)
+	}
+	if len(boxes) == 1 && !strings.ContainsAny(boxes[0], " \t") {
+		popName = pop3Count(st, boxes[0])
+	}
+	return []string{ipTable(strs...), rc, dc, stored, byAddr, byName, restObs, popAddr, popName}
+}
